@@ -24,6 +24,7 @@ let handle = function
   | ["ops"; t; h; a; i; s; t'; h'; a'; i'; s'] ->
     let mk t h a i s = { Rules.o_typ = nn t; Rules.o_hash = nn h; Rules.o_alg = nn a; Rules.o_issuer = nlist i; Rules.o_salt = nlist s } in
     str_of_bool (Rules.ops_matches (mk t h a i s) (mk t' h' a' i' s'))
+  | ["opspair"; ov; sv] -> str_of_bool (Rules.ops_pair_ok (nn ov) (nn sv))
   | ["subkey"; pv; sv] -> str_of_bool (Rules.subkey_version_ok (nn pv) (nn sv))
   | ["binding"; bv; sc; bs] -> str_of_bool (Rules.binding_ok (bool_of bv) (bool_of sc) (bool_of bs))
   | _ -> "MODEL-ERROR unknown op"
